@@ -77,7 +77,7 @@ impl From<Arc<reexports::ServerConfig>> for TlsAcceptor {
 impl Acceptor {
 //@extract file=${FILE} item="impl Acceptor / fn new" ret=r props=C18 name=accept::Acceptor::new
 //@spec
-    ensures r.handshake_timeout.ns() == 3 * 1_000_000_000,   // [C18] default handshake timeout: 3 s
+    ensures r.handshake_timeout.ns() == default_hs_timeout_ns(),   // [C18] the crate default (its VALUE, 3 s today, is not part of the property)
 //@end
 //@extract file=${FILE} item="impl Acceptor / fn set_handshake_timeout" ret=r props=C18 name=accept::Acceptor::set_handshake_timeout
 //@spec
